@@ -701,6 +701,13 @@ def dict_subclass_and_enum_models_agree_with_python(a: int, b: int):
     except KeyError:
         ok = False
     assert not ok
+    import copy
+
+    q = copy.copy(p)
+    q["extra"] = 1
+    dq = copy.deepcopy(p)
+    dq["k"] = a + 1
+    assert "extra" not in p and p["k"] == a and q["k"] == a and isinstance(q, Plain) and isinstance(dq, Plain), "copies are new mappings"
     dict.__setitem__(p, "m", b)
     assert dict.__contains__(p, "m") and dict.__len__(p) == 2
     assert list(Colour) == [Colour.RED, Colour.GREEN, Colour.BLUE] and Colour.names() == ["RED", "GREEN", "BLUE"]
